@@ -62,3 +62,39 @@ Theorem xform_icc_chunk_overhead_refuted :
   valid_setup setup_chunks /\ icc_bytes_written setup_chunks 255 = 7140 /\ marker_budget setup_chunks = 4598 /\
   marker_budget setup_chunks < icc_bytes_written setup_chunks 255.
 Proof. unfold valid_setup. vm_compute. repeat split; intros; discriminate. Qed.
+
+Definition icc_max_data' : Z := 65519.
+
+(* ---- once the size function counts the chunk overhead (gen_chunk_overhead = 18, the fix of
+        xform-icc-undersized:chunk-overhead) it covers every byte of ICC markers the transform writes *)
+Require Import ZifyBool.
+Ltac Zify.zify_post_hook ::= Z.div_mod_to_equations.
+
+(* counting 18 bytes per chunk (source: markers seen when the header is read; instance: 65519-byte chunks) covers
+   every byte of ICC markers the transform writes -- whatever the tree currently counts *)
+Lemma xform_icc_bytes_core : forall x k, valid_setup x -> 0 <= k -> icc_bytes_written x k <= size_term_bytes_with 18 65519 x k.
+Proof.
+  intros [s cn src inst got] k (Hs & Hsrc & Hinst) Hk.
+  change gen_savemarkers_min with 0 in Hs. change gen_savemarkers_max with 4 in Hs.
+  unfold icc_bytes_written, size_term_bytes_with, chunks_written, temp_markers, inst_chunks_assumed, inst_chunks,
+    icc_written, size_term, size_term_with, copied_bytes, inst_bytes, icc_copied, saved_icc, copy_opt, temp_icc, temp_icc_with,
+    icc_chunk_overhead.
+  cbn [x_save x_copynone x_src x_inst x_got] in *.
+  assert (B1 : (0 <? src) = negb (src =? 0)).
+  { destruct (src =? 0) eqn:E; [apply Z.eqb_eq in E; subst; reflexivity|]. apply Z.eqb_neq in E. apply Z.ltb_lt. lia. }
+  rewrite B1. clear B1.
+  unfold gen_size_term, gen_size_picks_temp, gen_copy_option, gen_icc_copied, gen_writes_inst, gen_saves_app2, gen_copies_app2,
+    gen_header_extracts, gen_get_zeroes_temp.
+  change (GenDest.icc_max_bytes_in_marker - GenDest.icc_overhead_len) with 65519. change GenDest.icc_overhead_len with 14.
+  destruct (save_cases s Hs) as [->|[->|[->|[->| ->]]]]; destruct cn, got;
+    destruct (src =? 0) eqn:E3; destruct (inst =? 0) eqn:E4;
+    unfold jcopyopt_NONE, jcopyopt_COMMENTS, jcopyopt_ALL, jcopyopt_ALL_EXCEPT_ICC, jcopyopt_ICC;
+    cbn [Z.eqb Pos.eqb andb orb negb]; rewrite ?E3, ?E4; cbn [Z.eqb Pos.eqb andb orb negb];
+    try (destruct (inst mod 65519 =? 0) eqn:E5); try zfin.
+Qed.
+
+Theorem xform_icc_bytes_sufficient_with_overhead : gen_chunk_overhead = icc_chunk_overhead -> gen_inst_chunk = icc_max_data' ->
+  forall x k, valid_setup x -> 0 <= k -> icc_bytes_written x k <= size_term_bytes x k.
+Proof.
+  intros H1 H2 x k V Hk. unfold size_term_bytes. rewrite H1, H2. exact (xform_icc_bytes_core x k V Hk).
+Qed.
